@@ -169,11 +169,11 @@ func truncate(s string, n int) string {
 }
 
 func try(uuid, typ, name string, extra map[string]string, run *lib.Run) bool {
-	if err := dv.NewInstance(uuid, typ, name, extra); err != nil {
+	if err := tNewInstance(uuid, typ, name, extra); err != nil {
 		run.Notes = append(run.Notes, fmt.Sprintf("datatype %s cannot be instantiated offline: %v", typ, truncate(err.Error(), 200)))
 		return false
 	}
-	in := instT{Name: name, Type: typ, Pkg: pkgOf(uuid, name)}
+	in := instT{Name: name, Type: typ, Pkg: pkgOf(uuid, name, typ)}
 	if extra["versioned"] == "false" {
 		in.Unversioned = true
 	}
@@ -191,7 +191,8 @@ func setup(run *lib.Run) {
 	grayA = grayVol(32, func(x, y, z int) byte { return byte(x + 2*y + 3*z) })
 	grayB = grayVol(32, func(x, y, z int) byte { return byte(200 - x) })
 
-	root, err := dv.NewRepo("c02")
+	insts = nil
+	root, err := tNewRepo("c02")
 	if err != nil {
 		fmt.Fprintln(os.Stderr, "c02 setup:", err)
 		os.Exit(2)
@@ -219,81 +220,127 @@ func setup(run *lib.Run) {
 	}
 	// syncs
 	if has["lb"] && has["lv"] {
-		dv.Post(node(root, "lb", "sync"), []byte(`{"sync":"lv"}`))
+		tPost(node(root, "lb", "sync"), []byte(`{"sync":"lv"}`))
 	}
 	if has["an"] && has["lm"] {
-		must("sync an", dv.Post(node(root, "an", "sync"), []byte(`{"sync":"lm"}`)))
+		must("sync an", tPost(node(root, "an", "sync"), []byte(`{"sync":"lm"}`)))
 	}
 	if has["lsz"] && has["an"] {
-		must("sync lsz", dv.Post(node(root, "lsz", "sync"), []byte(`{"sync":"an"}`)))
+		must("sync lsz", tPost(node(root, "lsz", "sync"), []byte(`{"sync":"an"}`)))
 	}
 	if has["tsv"] && has["lm"] {
-		must("sync tsv", dv.Post(node(root, "tsv", "sync"), []byte(`{"sync":"lm"}`)))
+		must("sync tsv", tPost(node(root, "tsv", "sync"), []byte(`{"sync":"lm"}`)))
 	}
-	// base data at the root
-	must("kv base", dv.Post(node(root, "kv", "key/base"), []byte("root-value")))
-	must("kvu base", dv.Post(node(root, "kvu", "key/base"), []byte("unversioned-value")))
+	// The root E stays EMPTY for every instance that is later snapshotted (only the scratch labelmap and
+	// the unversioned keyvalue get content): it is the empty fork point of the sibling branches.
+	must("kvu base", tPost(node(root, "kvu", "key/base"), []byte("unversioned-value")))
 	if has["lmscratch"] {
-		must("lmscratch raw C", dv.Post(node(root, "lmscratch", "raw/0_1_2/64_64_64/0_0_0"), volCBytes))
+		must("lmscratch raw C", tPost(node(root, "lmscratch", "raw/0_1_2/64_64_64/0_0_0"), volCBytes))
 		settle(root)
-		lmBlocksC = must("lmscratch blocks C", dv.Get(node(root, "lmscratch", "blocks/64_64_64/0_0_0?compression=blocks"))).Body
-		must("lmscratch raw", dv.Post(node(root, "lmscratch", "raw/0_1_2/64_64_64/0_0_0"), volBBytesG))
+		lmBlocksC = must("lmscratch blocks C", tGet(node(root, "lmscratch", "blocks/64_64_64/0_0_0?compression=blocks"))).Body
+		must("lmscratch raw", tPost(node(root, "lmscratch", "raw/0_1_2/64_64_64/0_0_0"), volBBytesG))
 		settle(root)
-		r := must("lmscratch blocks", dv.Get(node(root, "lmscratch", "blocks/64_64_64/0_0_0?compression=blocks")))
+		r := must("lmscratch blocks", tGet(node(root, "lmscratch", "blocks/64_64_64/0_0_0?compression=blocks")))
 		lmBlocksB = r.Body
-		lmIndex7 = dv.Get(node(root, "lmscratch", "index/7")).Body
-		lmIndices = dv.Do("GET", node(root, "lmscratch", "indices"), []byte("[7,8]")).Body
+		lmIndex7 = tGet(node(root, "lmscratch", "index/7")).Body
+		lmIndices = tDo("GET", node(root, "lmscratch", "indices"), []byte("[7,8]")).Body
 	}
-	if r := dv.Post(node(root, "kv", "blobstore"), []byte("a blob")); r.Status == 200 {
+	if r := tPost(node(root, "kv", "blobstore"), []byte("a blob")); r.Status == 200 {
 		var m struct{ Reference string }
 		json.Unmarshal(r.Body, &m)
 		blobRef = m.Reference
 	}
-	must("commit R", dv.Commit(root))
+	must("commit E", tCommit(root))
 
-	v, r := dv.NewVersion(root)
+	// G (grandparent of V): first, small content of the cheap types
+	g, r := tNewVersion(root)
+	must("newversion G", r)
+	uuidG = g
+	must("kv base", tPost(node(g, "kv", "key/base"), []byte("root-value")))
+	must("kv g1", tPost(node(g, "kv", "key/g1"), []byte("g-value")))
+	if has["roi"] {
+		must("roi G", tPost(node(g, "roi", "roi"), []byte(`[[5,5,5,6],[6,5,5,5]]`)))
+	}
+	if has["an"] {
+		must("an G", tPost(node(g, "an", "elements"), []byte(`[{"Pos":[50,50,50],"Kind":"Note","Tags":["g"],"Prop":{},"Rels":[]}]`)))
+	}
+	if has["nj"] {
+		must("nj G", tPost(node(g, "nj", "key/500?u=verif"), []byte(`{"bodyid":500,"status":"G"}`)))
+	}
+	if has["tsv"] {
+		must("tsv G", tPost(node(g, "tsv", "supervoxel/5"), []byte("mesh-of-supervoxel-5")))
+	}
+	settle(g)
+	must("commit G", tCommit(g))
+
+	// P (parent of V): deletes and replaces part of G's content, first voxels
+	pp, r := tNewVersion(g)
+	must("newversion P", r)
+	uuidP = pp
+	must("kv p1", tPost(node(pp, "kv", "key/p1"), []byte("p-value")))
+	must("kv del g1", tDelete(node(pp, "kv", "key/g1")))
+	if has["lm"] {
+		// supervoxel 3 is mapped at P (into 2) and mapped again at V (cleaved, then merged into 1):
+		// one supervoxel remapped in two versions of one ancestry
+		must("lm raw P", tPost(node(pp, "lm", "raw/0_1_2/64_64_64/0_0_0"), volABytes))
+		settle(pp)
+		must("lm merge P", tPost(node(pp, "lm", "merge?u=verif"), []byte("[2,3]")))
+	}
+	if has["gray"] {
+		must("gray raw P", tPost(node(pp, "gray", "raw/0_1_2/32_32_32/0_0_0"), grayB))
+	}
+	if has["nj"] {
+		must("nj P", tPost(node(pp, "nj", "key/2000?u=verif"), []byte(`{"bodyid":2000,"status":"P"}`)))
+	}
+	settle(pp)
+	must("commit P", tCommit(pp))
+
+	v, r := tNewVersion(pp)
 	must("newversion V", r)
 	uuidV = v
 	fill(v, has, "A")
-	must("commit V", dv.PostJSON("/api/node/"+v+"/commit", map[string]interface{}{"note": "committed V", "log": []string{"entry one"}}))
-	vid, err := datastore.VersionFromUUID(dvid.UUID(v))
-	if err != nil {
-		panic(err)
-	}
-	verV = vid
+	must("commit V", tPostJSON("/api/node/"+v+"/commit", map[string]interface{}{"note": "committed V", "log": []string{"entry one"}}))
 
-	w, r := dv.Branch(root, "side")
+	// W: an unrelated committed branch off the root
+	w, r := tBranch(root, "side")
 	must("branch W", r)
 	uuidW = w
-	must("kv W", dv.Post(node(w, "kv", "key/w"), []byte("w-value")))
-	must("commit W", dv.Commit(w))
+	must("kv W", tPost(node(w, "kv", "key/w"), []byte("w-value")))
+	must("commit W", tCommit(w))
 
 	// X: a committed node that stays the HEAD (leaf) of its own branch
-	x, r := dv.Branch(root, "leafx")
+	x, r := tBranch(root, "leafx")
 	must("branch X", r)
 	uuidX = x
-	must("kv X", dv.Post(node(x, "kv", "key/x1"), []byte("x-value")))
+	must("kv X", tPost(node(x, "kv", "key/x1"), []byte("x-value")))
 	if has["nj"] {
-		must("nj X", dv.Post(node(x, "nj", "key/1000?u=verif"), []byte(njA)))
+		must("nj X", tPost(node(x, "nj", "key/1000?u=verif"), []byte(njA)))
 	}
 	if has["roi"] {
-		must("roi X", dv.Post(node(x, "roi", "roi"), []byte(roiA)))
+		must("roi X", tPost(node(x, "roi", "roi"), []byte(roiA)))
 	}
 	if has["an"] {
-		must("an X", dv.Post(node(x, "an", "elements"), []byte(annotA)))
+		must("an X", tPost(node(x, "an", "elements"), []byte(annotA)))
 	}
 	settle(x)
-	must("commit X", dv.PostJSON("/api/node/"+x+"/commit", map[string]interface{}{"note": "committed X", "log": []string{"x entry"}}))
-	xid, err := datastore.VersionFromUUID(dvid.UUID(x))
-	if err != nil {
-		panic(err)
-	}
-	verX = xid
+	must("commit X", tPostJSON("/api/node/"+x+"/commit", map[string]interface{}{"note": "committed X", "log": []string{"x entry"}}))
 
-	u, r := dv.NewVersion(v)
+	u, r := tNewVersion(v)
 	must("newversion U", r)
 	uuidU = u
-	run.Extra["uuids"] = map[string]string{"R": uuidR, "V": uuidV, "W": uuidW, "U": uuidU, "X": uuidX}
+	if inProcess {
+		vid, err := datastore.VersionFromUUID(dvid.UUID(v))
+		if err != nil {
+			panic(err)
+		}
+		verV = vid
+		xid, err := datastore.VersionFromUUID(dvid.UUID(x))
+		if err != nil {
+			panic(err)
+		}
+		verX = xid
+	}
+	run.Extra["uuids"] = map[string]string{"E": uuidR, "G": uuidG, "P": uuidP, "V": uuidV, "W": uuidW, "U": uuidU, "X": uuidX}
 }
 
 // ---- other ways of naming a node (datastore.MatchingUUID) ----
@@ -311,7 +358,7 @@ func refForms(target string) []refForm {
 	// position of the node in the ancestry of its branch (0 = HEAD)
 	pos := -1
 	for try := 0; try < 8 && pos < 0; try++ { // (the walk can fail at random once a branch has two heads, see sendResolved)
-		if r := dv.Get("/api/repo/" + uuidR + "/branch-versions/" + branch); r.Status == 200 {
+		if r := tGet("/api/repo/" + uuidR + "/branch-versions/" + branch); r.Status == 200 {
 			var anc []string
 			json.Unmarshal(r.Body, &anc)
 			for i, a := range anc {
@@ -344,39 +391,41 @@ func refForms(target string) []refForm {
 
 // fill writes content variant A through the documented POST endpoints.
 func fill(v string, has map[string]bool, variant string) {
-	must("kv k1", dv.Post(node(v, "kv", "key/k1"), []byte("value-one")))
-	must("kv k2", dv.Post(node(v, "kv", "key/k2"), []byte("value-two")))
-	must("kv del", dv.Delete(node(v, "kv", "key/base")))
+	must("kv k1", tPost(node(v, "kv", "key/k1"), []byte("value-one")))
+	must("kv k2", tPost(node(v, "kv", "key/k2"), []byte("value-two")))
+	must("kv del", tDelete(node(v, "kv", "key/base")))
 	if has["gray"] {
-		must("gray raw", dv.Post(node(v, "gray", "raw/0_1_2/32_32_32/0_0_0"), grayA))
-		must("gray extents", dv.Post(node(v, "gray", "extents"), []byte(`{"MinPoint":[0,0,0],"MaxPoint":[31,31,31]}`)))
+		must("gray raw", tPost(node(v, "gray", "raw/0_1_2/32_32_32/0_0_0"), grayA))
+		must("gray extents", tPost(node(v, "gray", "extents"), []byte(`{"MinPoint":[0,0,0],"MaxPoint":[31,31,31]}`)))
 	}
 	if has["lm"] {
-		must("lm raw", dv.Post(node(v, "lm", "raw/0_1_2/64_64_64/0_0_0"), volABytes))
+		r := must("lm cleave", tPost(node(v, "lm", "cleave/2?u=verif"), []byte("[3]")))
+		var cl struct{ CleavedLabel uint64 }
+		json.Unmarshal(r.Body, &cl)
 		settle(v)
-		must("lm merge", dv.Post(node(v, "lm", "merge"), []byte("[1,3]")))
+		must("lm merge", tPost(node(v, "lm", "merge?u=verif"), []byte(fmt.Sprintf("[1,%d]", cl.CleavedLabel))))
 	}
 	if has["la"] {
-		must("la raw", dv.Post(node(v, "la", "raw/0_1_2/64_64_64/0_0_0"), volABytes))
+		must("la raw", tPost(node(v, "la", "raw/0_1_2/64_64_64/0_0_0"), volABytes))
 	}
 	if has["lb"] {
-		must("lb raw", dv.Post(node(v, "lb", "raw/0_1_2/64_64_64/0_0_0"), volABytes))
+		must("lb raw", tPost(node(v, "lb", "raw/0_1_2/64_64_64/0_0_0"), volABytes))
 	}
 	if has["an"] {
-		must("an elements", dv.Post(node(v, "an", "elements"), []byte(annotA)))
+		must("an elements", tPost(node(v, "an", "elements"), []byte(annotA)))
 	}
 	if has["nj"] {
-		must("nj 1000", dv.Post(node(v, "nj", "key/1000?u=verif"), []byte(njA)))
-		must("nj 2000", dv.Post(node(v, "nj", "key/2000?u=verif"), []byte(njA2)))
-		must("nj schema", dv.Post(node(v, "nj", "json_schema?u=verif"), []byte(njSchema)))
-		must("nj neuschema", dv.Post(node(v, "nj", "schema?u=verif"), []byte(njNeuSchema)))
+		must("nj 1000", tPost(node(v, "nj", "key/1000?u=verif"), []byte(njA)))
+		must("nj 2000", tPost(node(v, "nj", "key/2000?u=verif"), []byte(njA2)))
+		must("nj schema", tPost(node(v, "nj", "json_schema?u=verif"), []byte(njSchema)))
+		must("nj neuschema", tPost(node(v, "nj", "schema?u=verif"), []byte(njNeuSchema)))
 	}
 	if has["roi"] {
-		must("roi", dv.Post(node(v, "roi", "roi"), []byte(roiA)))
+		must("roi", tPost(node(v, "roi", "roi"), []byte(roiA)))
 	}
 	if has["tsv"] {
-		must("tsv 1", dv.Post(node(v, "tsv", "supervoxel/1"), []byte("mesh-of-supervoxel-1")))
-		must("tsv 2", dv.Post(node(v, "tsv", "supervoxel/2"), []byte("mesh-of-supervoxel-2")))
+		must("tsv 1", tPost(node(v, "tsv", "supervoxel/1"), []byte("mesh-of-supervoxel-1")))
+		must("tsv 2", tPost(node(v, "tsv", "supervoxel/2"), []byte("mesh-of-supervoxel-2")))
 	}
 	settle(v)
 }
@@ -384,6 +433,10 @@ func fill(v string, has map[string]bool, variant string) {
 // settle lets asynchronous syncs (label indexing, labelvol, annotation label index, labelsz, downres) finish
 func settle(v string) {
 	// (datastore.BlockOnUpdating sleeps 100 ms per instance; poll the same conditions instead)
+	if !inProcess {
+		time.Sleep(600 * time.Millisecond)
+		return
+	}
 	time.Sleep(60 * time.Millisecond)
 	quiesceN(30)
 }
@@ -423,9 +476,10 @@ func probesFor(pkg, kw, meth string, in instT) []probeT {
 		switch kw {
 		case "key":
 			if rd {
-				return []probeT{snap("/k1", ""), snap("/k2", ""), snap("/base", ""), snap("/absent", "")}
+				return []probeT{snap("/k1", ""), snap("/k2", ""), snap("/base", ""), snap("/absent", ""), snap("/p1", ""), snap("/g1", ""), snap("/x1", "")}
 			}
-			return []probeT{p("/k1", "", []byte("PROBE-overwrite")), p("/newkey", "", []byte("PROBE-new"))}
+			return []probeT{p("/k1", "", []byte("PROBE-overwrite")), p("/newkey", "", []byte("PROBE-new")), p("/k2", "", []byte("PROBE-k2")),
+				p("/base", "", []byte("PROBE-base")), p("/p1", "", []byte("PROBE-p1")), p("/g1", "", []byte("PROBE-g1"))}
 		case "keys":
 			return []probeT{{Body: jsonB(`["k1"]`), Snap: rd}}
 		case "keyrange":
